@@ -4,6 +4,7 @@
    stages of Model/Dst.v) and Model/CounterfactualFlows.v (relations, CalTRACK hourly flow). *)
 From Coq Require Import ZArith QArith List Bool Arith.
 From V Require Import Model.Resample Model.TempAgg.
+From V Require Import Generated.ObservedReadsGen Model.ReadSites.
 From V Require Import Model.Dst Model.DstRun Model.Rows Model.PredictRows Model.HourlyFlow Model.CounterfactualFlows
                       Model.CounterfactualRun Proofs.CounterfactualProofs Proofs.HourlyFlowProofs.
 Import ListNotations.
@@ -446,3 +447,40 @@ Theorem C05_caltrack_index_zone_refuted : exists mz w,
   index_zone UnionToUtc (Some mz) w <> index_zone UnionToUtc None w.
 Proof. exists 1%Z, 2%Z. vm_compute. discriminate. Qed.
 Print Assumptions C05_caltrack_index_zone_refuted.
+
+(* ================================================================== which columns the predict paths read ============
+   Generated/ObservedReadsGen.v is regenerated from the source on every run (harness/translate_reads.py, fail-closed): every
+   mention of the column "observed" and every NaN-sensitive whole-frame operation in the functions reachable from the
+   predict entry points and the data classes in front of them. *)
+
+(* every mention of the usage column on a predict path is a site the models account for (Model/ReadSites.v), with no more
+   occurrences than accounted: a new read of `observed` breaks this obligation *)
+Theorem C05_observed_reads_accounted : accounted declared_reads observed_reads = true.
+Proof. vm_compute. reflexivity. Qed.
+Print Assumptions C05_observed_reads_accounted.
+
+(* ... and so is every whole-frame operation that looks at the NaN pattern of all columns (dropna, mask, where, isnull,
+   count, fillna, ...): seeded C05-2 (dropna before the de-duplication) and C05-4 (mask) add such a call *)
+Theorem C05_frame_ops_accounted : accounted declared_frame_ops frame_ops = true.
+Proof. vm_compute. reflexivity. Qed.
+Print Assumptions C05_frame_ops_accounted.
+
+(* tie to the flow models: every site through which usage is an input at predict time belongs to a stage that the family's
+   model has (hourly: cluster_stage, zero_rec, blank frames, fill_o; CalTRACK: zero rule, absent column, c_obs; daily /
+   billing: complete) — the stages the non-interference theorems above quantify over; all other sites are not inputs *)
+Theorem C05_usage_inputs_are_modelled :
+  inputs_modelled declared_reads observed_reads = true /\ inputs_modelled declared_frame_ops frame_ops = true.
+Proof. split; vm_compute; reflexivity. Qed.
+Print Assumptions C05_usage_inputs_are_modelled.
+
+(* non-vacuity: the generated tables are not empty and contain the sites the hourly theorems are about; a read added to a
+   function that already has some is NOT accounted for *)
+Example C05_reads_nonvacuous :
+  (0 < length observed_reads)%nat /\ (0 < length frame_ops)%nat /\
+  stage_of declared_reads ("hourly", "HourlyModel._add_categorical_features.correct_missing_temporal_clusters", "load", 5%nat)
+    = Some ClusterRepair /\
+  stage_of declared_reads ("hourly", "HourlyModel._normalize_features", "load", 3%nat) = None /\
+  stage_of declared_reads ("hourly", "HourlyModel._predict", "load", 1%nat) = None /\
+  stage_of declared_frame_ops ("hourly", "_HourlyData._set_data", "dropna", 1%nat) = None /\
+  stage_of declared_frame_ops ("hourly", "_HourlyData._set_data", "mask", 1%nat) = None.
+Proof. repeat split; vm_compute; auto with arith. Qed.
